@@ -1,6 +1,7 @@
 package h
 
 import (
+	"time"
 	"regexp"
 
 	z "github.com/Oudwins/zog"
@@ -230,7 +231,7 @@ func C17_Jobs() []string {
 	for _, op := range c17NotOps {
 		out = append(out, "not/"+op)
 	}
-	out = append(out, "not-scope", "not-empty-arg", "lastcall/int", "lastcall/str", "lastcall/slice", "lastcall/options", "options/local", "options/shared-test", "options/not-moved", "not-with-options", "coercer/local", "coercer/slice", "shared/fields", "shared/slice")
+	out = append(out, "not-scope", "not-empty-arg", "lastcall/int", "lastcall/str", "lastcall/slice", "lastcall/bool", "lastcall/float", "lastcall/time", "lastcall/options", "options/local", "options/shared-test", "options/not-moved", "not-with-options", "coercer/local", "coercer/slice", "shared/fields", "shared/slice")
 	return out
 }
 func C17_Covers() []string { return []string{"checked"} }
@@ -644,6 +645,147 @@ func c17LastCall(kind string) {
 		e2 := w.Parse(lin, &d2)
 		v.Assert(sameMapsExcept(e1, e2, nil), "C17:modifier-last-call-does-not-win")
 		v.Assert(eqIntSlices(d1, d2), "C17:modifier-last-call-does-not-win")
+	case "bool":
+		bv := []bool{false, true, false}
+		s := z.Bool().True()
+		w := z.Bool().True()
+		for _, m := range seq {
+			switch m {
+			case 0:
+				s = s.Required()
+			case 1:
+				s = s.Optional()
+			case 2:
+				s = s.Default(bv[1])
+			case 3:
+				s = s.Default(bv[2])
+			case 4:
+				s = s.Catch(bv[1])
+			case 5:
+				s = s.Catch(bv[2])
+			case 6:
+				s = s.Required(z.Message("M2"))
+			}
+		}
+		if req {
+			if reqMsg {
+				w = w.Required(z.Message("M2"))
+			} else {
+				w = w.Required()
+			}
+		}
+		if def != 0 {
+			w = w.Default(bv[def])
+		}
+		if catch != 0 {
+			w = w.Catch(bv[catch])
+		}
+		var bin any
+		switch cls {
+		case 1:
+			bin = false
+		case 2:
+			bin = true
+		}
+		pre := v.Bool("pre")
+		d1, d2 := pre, pre
+		e1 := s.Parse(bin, &d1)
+		e2 := w.Parse(bin, &d2)
+		v.Assert(fullCodes(e1) == fullCodes(e2), "C17:modifier-last-call-does-not-win")
+		v.Assert(d1 == d2, "C17:modifier-last-call-does-not-win")
+	case "float":
+		fg := v.Float64("fg")
+		fv := []float64{0, v.Float64("fv1"), v.Float64("fv2")}
+		s := z.Float64().GT(fg)
+		w := z.Float64().GT(fg)
+		for _, m := range seq {
+			switch m {
+			case 0:
+				s = s.Required()
+			case 1:
+				s = s.Optional()
+			case 2:
+				s = s.Default(fv[1])
+			case 3:
+				s = s.Default(fv[2])
+			case 4:
+				s = s.Catch(fv[1])
+			case 5:
+				s = s.Catch(fv[2])
+			case 6:
+				s = s.Required(z.Message("M2"))
+			}
+		}
+		if req {
+			if reqMsg {
+				w = w.Required(z.Message("M2"))
+			} else {
+				w = w.Required()
+			}
+		}
+		if def != 0 {
+			w = w.Default(fv[def])
+		}
+		if catch != 0 {
+			w = w.Catch(fv[catch])
+		}
+		var fin any
+		if cls != 0 {
+			fin = v.Float64("f") // passing or failing: the solver splits
+		}
+		d1, d2 := 7.5, 7.5
+		e1 := s.Parse(fin, &d1)
+		e2 := w.Parse(fin, &d2)
+		v.Assert(fullCodes(e1) == fullCodes(e2), "C17:modifier-last-call-does-not-win")
+		v.Assert(v.SameBits(d1, d2), "C17:modifier-last-call-does-not-win")
+	case "time":
+		t0 := time.Unix(1000, 0).UTC()
+		tv := []time.Time{{}, time.Unix(5000, 0).UTC(), time.Unix(6000, 0).UTC()}
+		s := z.Time().After(t0)
+		w := z.Time().After(t0)
+		for _, m := range seq {
+			switch m {
+			case 0:
+				s = s.Required()
+			case 1:
+				s = s.Optional()
+			case 2:
+				s = s.Default(tv[1])
+			case 3:
+				s = s.Default(tv[2])
+			case 4:
+				s = s.Catch(tv[1])
+			case 5:
+				s = s.Catch(tv[2])
+			case 6:
+				s = s.Required(z.Message("M2"))
+			}
+		}
+		if req {
+			if reqMsg {
+				w = w.Required(z.Message("M2"))
+			} else {
+				w = w.Required()
+			}
+		}
+		if def != 0 {
+			w = w.Default(tv[def])
+		}
+		if catch != 0 {
+			w = w.Catch(tv[catch])
+		}
+		var tin any
+		switch cls {
+		case 1:
+			tin = time.Unix(10, 0).UTC()
+		case 2:
+			tin = time.Unix(2000, 0).UTC()
+		}
+		d1, d2 := time.Unix(1, 0).UTC(), time.Unix(1, 0).UTC()
+		e1 := s.Parse(tin, &d1)
+		e2 := w.Parse(tin, &d2)
+		v.Assert(fullCodes(e1) == fullCodes(e2), "C17:modifier-last-call-does-not-win")
+		v.Assert(d1.Equal(d2), "C17:modifier-last-call-does-not-win")
 	case "options":
 		// Required(options) twice: the second call replaces the first completely
 		s := z.Int().Required(z.Message("FIRST"), z.IssueCode("first_code"), z.IssuePath("first.path")).Required()
